@@ -263,14 +263,30 @@ pub fn format_generic_for(ctx: &Context, generic_for: &GenericFor, shape: Shape)
         false => singleline_expr,
     };
 
-    let do_token = match requires_expr_multiline {
-        true => fmt_symbol!(ctx, generic_for.do_token(), "do", shape).update_leading_trivia(
-            FormatTriviaType::Append(vec![
+    // If there are comments in front of the `do` token, they are placed on lines of their own, with `do` below them
+    let do_token_comments = generic_for
+        .do_token()
+        .has_leading_comments(CommentSearch::All);
+    let expr_list = match do_token_comments {
+        true => expr_list
+            .update_trailing_trivia(FormatTriviaType::Append(trailing_trivia.to_owned())),
+        false => expr_list,
+    };
+
+    let do_token = match (do_token_comments, requires_expr_multiline) {
+        (true, _) => format_end_token(
+            ctx,
+            generic_for.do_token(),
+            EndTokenType::IndentComments,
+            shape,
+        )
+        .update_leading_trivia(FormatTriviaType::Append(leading_trivia.to_owned())),
+        (false, true) => fmt_symbol!(ctx, generic_for.do_token(), "do", shape)
+            .update_leading_trivia(FormatTriviaType::Append(vec![
                 create_newline_trivia(ctx),
                 create_indent_trivia(ctx, shape),
-            ]),
-        ),
-        false => fmt_symbol!(ctx, generic_for.do_token(), " do", shape),
+            ])),
+        (false, false) => fmt_symbol!(ctx, generic_for.do_token(), " do", shape),
     }
     .update_trailing_trivia(FormatTriviaType::Append(trailing_trivia));
 
@@ -638,8 +654,33 @@ pub fn format_numeric_for(ctx: &Context, numeric_for: &NumericFor, shape: Shape)
         _ => unreachable!("Got numeric for end step comma with no step or vice versa"),
     };
 
-    let do_token = fmt_symbol!(ctx, numeric_for.do_token(), " do", shape)
-        .update_trailing_trivia(FormatTriviaType::Append(trailing_trivia.to_owned()));
+    // If there are comments in front of the `do` token, they are placed on lines of their own, with `do` below them
+    let do_token_comments = numeric_for
+        .do_token()
+        .has_leading_comments(CommentSearch::All);
+    let (end, step) = match (do_token_comments, step) {
+        (false, step) => (end, step),
+        (true, Some(step)) => (
+            end,
+            Some(step.update_trailing_trivia(FormatTriviaType::Append(trailing_trivia.to_owned()))),
+        ),
+        (true, None) => (
+            end.update_trailing_trivia(FormatTriviaType::Append(trailing_trivia.to_owned())),
+            None,
+        ),
+    };
+
+    let do_token = match do_token_comments {
+        true => format_end_token(
+            ctx,
+            numeric_for.do_token(),
+            EndTokenType::IndentComments,
+            shape,
+        )
+        .update_leading_trivia(FormatTriviaType::Append(leading_trivia.to_owned())),
+        false => fmt_symbol!(ctx, numeric_for.do_token(), " do", shape),
+    }
+    .update_trailing_trivia(FormatTriviaType::Append(trailing_trivia.to_owned()));
     let block_shape = shape.reset().increment_block_indent();
     let block = format_block(ctx, numeric_for.block(), block_shape);
     let end_token = format_end_token(
